@@ -86,6 +86,12 @@ def float_op(proc: str, x: float, p: Dict[str, Any], ctx: Dict[str, Any], log: l
     if proc == "VBadWrite":
         log.append(("VBadWrite", {}))
         raise Fail("KeyError", "undeclared-write")  # write to an undeclared key
+    if proc == "VAbort":
+        log.append(("VAbort", {}))
+        raise Fail("VerifAbort")
+    if proc == "VSysExit":
+        log.append(("VSysExit", {}))
+        raise Fail("SystemExit")
     if proc == "VInterrupt":
         log.append(("VInterrupt", {}))
         raise Fail("KeyboardInterrupt")
@@ -171,6 +177,11 @@ def step(sym: dict, data: Any, ctx: Dict[str, Any], out: Outcome) -> Any:
         items = [float_op(sym["proc"], data[1], {"factor": t}, ctx, log) for t in seq]
         ctx[f"{var}_values"] = list(seq)
         return ("C", items)
+    if kind == "sweep_probe":
+        (var, seq), = sym["vars"].items()
+        ctx[sym["ckey"]] = [probe_fn(sym["proc"], data[1], {"factor": t}, log) for t in seq]
+        ctx[f"{var}_values"] = list(seq)
+        return data
     if kind == "ctx":
         op = sym["op"]
         if op == "rename":
